@@ -33,6 +33,7 @@ cdef class TaskScheduler(object):
     cdef public async_task.AsyncTask active_task
     cdef public str name
     cdef public list _tasks
+    cdef public long long _pass
 
     cdef reset(self)
 
